@@ -33,6 +33,7 @@ import vloop
 use_repo()
 from pyplumio.const import DeviceType, FrameType  # noqa: E402
 from pyplumio.devices.ecomax import SETUP_FRAME_TYPES, EcoMAX  # noqa: E402
+from pyplumio.devices.ecoster import EcoSTER  # noqa: E402
 from pyplumio.frames import Request, is_known_frame_type  # noqa: E402
 from pyplumio.frames.messages import RegulatorDataMessage, SensorDataMessage  # noqa: E402
 from pyplumio.structures.modules import MODULES  # noqa: E402
@@ -700,6 +701,132 @@ def check_overlap(res, cases):
                      "(two announcements pass the version check before either records); the overlap machine predicts every one of them")
 
 
+# ---------------------------------------------------------------- several devices on one write queue ("queued TO THAT DEVICE")
+ADDRS = [int(DeviceType.ECOMAX), int(DeviceType.ECOSTER)]
+
+
+def parse_devices(text):
+    """`devices [h] <addr>@<event> ...`  (events s / r / e / q as above, no decorations; s only for the ecoMAX)"""
+    w = text.split()[1:]
+    hold = bool(w) and w[0] == "h"
+    evs = []
+    for x in w[1:] if hold else w:
+        a, e = x.split("@")
+        evs.append((int(a), parse_case(e)[0]))
+    return hold, evs
+
+
+def devices_text(hold, evs):
+    return " ".join(["devices"] + (["h"] if hold else []) + [f"{a}@{case_text([e])}" for a, e in evs])
+
+
+def run_devices_case(runner, hold, evs):
+    """-> per event the (kind, recipient) of the frames found on the SHARED queue, anomalies"""
+    aio_events._set_running_loop(runner.loop)
+    try:
+        queue = asyncio.Queue()
+        devs = {int(DeviceType.ECOMAX): EcoMAX(queue, NetworkInfo()), int(DeviceType.ECOSTER): EcoSTER(queue, NetworkInfo())}
+        runner.loop.hold = hold
+        obs, anomalies = [], []
+        for a, (kind, body) in evs:
+            dev = devs[a]
+            if kind == "e":
+                dev.dispatch_nowait("frame_errors", [FrameType(k) if is_known_frame_type(k) else k for k in body])
+            elif kind == "q":
+                runner.n_req += 1
+
+                async def req(dev=dev, k=body[0], n=body[1], name=f"never_{runner.n_req}"):
+                    try:
+                        await dev.request(name, FrameType(k), retries=n, timeout=0.5)
+                    except ValueError:
+                        pass
+
+                runner.loop.create_task(req())
+                runner.settle()
+                runner.loop.settle(until=runner.loop.time() + 0.5 * body[1] + 0.25)
+            else:
+                payload = sensor_payload(body) if kind[0] == "s" else regdata_payload(body)
+                cls = SensorDataMessage if kind[0] == "s" else RegulatorDataMessage
+                try:
+                    dev.handle_frame(cls(message=bytearray(payload), sender=DeviceType(a), recipient=DeviceType.ECONET))
+                except Exception as e:  # noqa: BLE001
+                    anomalies.append(f"handle_frame raised {type(e).__name__}")
+            runner.settle()
+            frames = []
+            while not queue.empty():
+                f = queue.get_nowait()
+                frames.append((int(f.frame_type), int(f.recipient)))
+                if not isinstance(f, Request):
+                    anomalies.append(f"queued {type(f).__name__}")
+            obs.append(frames)
+        return obs, anomalies
+    finally:
+        runner.loop.hold = False
+        while runner.loop.held:
+            runner.loop.release(0)
+        aio_events._set_running_loop(None)
+
+
+def gen_devices(rng):
+    kinds = rng.sample(REQUESTS, rng.randint(1, 4))
+    last = {a: {} for a in ADDRS}
+    evs = []
+    if rng.random() < 0.4:
+        evs.append((rng.choice(ADDRS), ("e", rng.sample(SETUP, rng.choice([0, 1, 2])))))
+    for _ in range(rng.randint(2, 9)):
+        a = rng.choice(ADDRS)
+        r = rng.random()
+        if r < 0.08:
+            evs.append((a, ("e", rng.sample(SETUP + kinds, rng.choice([0, 1, 2])))))
+        elif r < 0.16:
+            evs.append((a, ("q", (rng.choice(kinds), rng.choice([1, 2])))))
+        else:
+            body = []
+            for k in rng.sample(kinds, rng.randint(1, len(kinds))):
+                v = gen_version(rng, last[a].get(k)) if rng.random() < 0.6 else rng.choice([1, 2])
+                last[a][k] = v
+                body.append((k, v))
+            if rng.random() < 0.1:
+                body.append((rng.choice(UNKNOWN), 1))
+            evs.append((a, ("s" if a == ADDRS[0] and rng.random() < 0.5 else "r", body)))
+    return rng.random() < 0.5, evs
+
+
+def check_devices(res, cases):
+    runner = Runner()
+    try:
+        impl = [run_devices_case(runner, hold, evs) for hold, evs in cases]
+    finally:
+        runner.close()
+
+    def lean_ev(a, e):
+        return f"{a}@{lean_events([e])[0]}"
+
+    answers = driver_batch(" ".join(["c15sys"] + [lean_ev(a, e) for a, e in evs]) for _, evs in cases)
+    verdicts = driver_batch(
+        " ".join(["c15sysjudge"] + [lean_ev(a, e) for a, e in evs] + ["|"] + [",".join(f"{k}>{r}" for k, r in o) or "-" for o in obs])
+        for (_, evs), (obs, _) in zip(cases, impl))
+    for (hold, evs), (obs, anomalies), ans, verdict in zip(cases, impl, answers, verdicts):
+        text = devices_text(hold, evs)
+        inp = dict(case=text, label="devices")
+        model = [] if ans == "." else [[] if x == "-" else [tuple(int(y) for y in f.split(">")) for f in x.split(",")] for x in ans.split(";")]
+        both = {a for a, (k, _) in evs if k[0] in "sr"}
+        res.case(text, len(both) == 2 and sum(1 for o in obs if o) >= 2)
+        res.count("label:devices")
+        for (a, _), o in zip(evs, obs):
+            for k, r in o:
+                res.count("request addressed to: " + ("the announcing device" if r == a else "ANOTHER device"))
+        if anomalies:
+            res.fail("spec", inp, "request frames only", anomalies, "queued frame shape")
+        if verdict != "pass":
+            wrong = [(i, a, o) for i, ((a, _), o) in enumerate(zip(evs, obs)) if any(r != a for _, r in o)]
+            res.fail("spec", inp, dict(model=model), dict(queued=obs, judge=verdict, wrong_recipient=wrong[:3]),
+                     "C15.specSys fails on the shared queue: " + ("a refresh is not addressed to the device that announced the version"
+                                                                  if wrong else "the refreshes of a device are not those its own history prescribes"))
+        elif obs != model:
+            res.fail("corr", inp, model, obs, "device-system model and the devices differ")
+
+
 def run(ctx):
     rng = random.Random(ctx["seed"] * 7919 + 15)
     res = Result("C15")
@@ -710,15 +837,25 @@ def run(ctx):
                 "around the announcements (no events of the statement): the frame object inspected before the device handles it (repr / data / message / "
                 "len / == / bytes), arriving as bytes through a real FrameReader, with DEBUG logging of the pyplumio loggers; client subscribers on sensor "
                 "names / frame_versions / sensors / regdata that raise, suspend (briefly, over the next event, to the end), unsubscribe themselves or are "
-                "once-subscribers that raise; executor jobs (the class import of every Request.create) completing at once or only when the loop is idle. distinct = distinct history text; non-trivial = >= 2 announcements, "
+                "once-subscribers that raise; executor jobs (the class import of every Request.create) completing at once or only when the loop is idle; "
+                "a section with TWO devices (EcoMAX 0x45, EcoSTER 0x51) on one write queue, the same kinds announced to both in turn, recipients observed. distinct = distinct history text; non-trivial = >= 2 announcements, "
                 "at least one that queued a request and one that queued nothing")
-    cases = [(parse_case(ln), "corpus") for _, ln in load_corpus("C15")]
+    cases = [(parse_case(ln), "corpus") for _, ln in load_corpus("C15") if not ln.startswith("devices")]
     cases.extend(gen_cases(rng, ctx["tier"]))
     if ctx.get("max_cases"):
         cases = cases[: ctx["max_cases"]]
     check_cases(res, cases)
     if not ctx.get("max_cases"):
-        run_overlap(res, rng, 150 if ctx["tier"] == "quick" else 3000)
+        dcases = [parse_devices(ln) for _, ln in load_corpus("C15") if ln.startswith("devices")]
+        dcases += [gen_devices(rng) for _ in range(400 if ctx["tier"] == "quick" else 8000)]
+        check_devices(res, dcases)
+        try:
+            run_overlap(res, rng, 150 if ctx["tier"] == "quick" else 3000)
+        except ValueError as e:
+            # a handler that is expected to be suspended inside Request.create (executor job held) is not: the schedule
+            # of the overlap machine cannot be replayed on this tree
+            res.fail("corr", dict(case="overlap section", label="overlap"), "update_frame_versions suspends in Request.create for every refresh",
+                     f"{type(e).__name__}: {e}", "overlap machine: an announcement handler did not suspend where the machine does")
     res.extra["unsupported_subsets_enumerated"] = 2 ** len(SETUP)
     res.notes.append("observed per event: kinds of the frames found on the device queue after loop quiescence (all must be Request "
                      "frames addressed to the ecoMAX); the TypeError raised for a known response/message code is seen only through "
@@ -731,6 +868,9 @@ def replay(ctx):
     f = r.get("failure") or r.get("first_difference")
     res = Result("C15")
     res.rule = "replay of one recorded history"
+    if f["input"]["case"].startswith("devices"):
+        check_devices(res, [parse_devices(f["input"]["case"])])
+        return res
     if f["input"]["case"].startswith("overlap "):
         ops = parse_overlap(f["input"]["case"][len("overlap "):])
         runner = OverlapRunner()
